@@ -162,6 +162,7 @@ def items(ctx):
 STREAMS = [
     "program p\n  a = b & ! c1\n   ! c2\n   & + c\n  x = 'ab&\n   &cd' ; nm: do i=1,2\n10 e = f; g = h\nend do nm\nend\n",
     "subroutine s\n! lead\n  call t(1, &\n  ! mid\n         2) ! tail\n\n  if (q) then; r = 1; end if\nend subroutine s\n",
+    "program q\n  a = 1\n  include 'one.inc'\n  d = 4 ! after\n  include 'two.inc'\n  e = 5\nend program q\n",
 ]
 
 
@@ -175,12 +176,20 @@ def _drain(r):
     return out
 
 
+INC_FREE = "  b = 2 ! inc trailing\n  ! inc last comment\n"
+INC_FIX = "      c = 3\nC     fixed-form comment at the end\n"
+
+
 def putback(ctx):
     p = ctx.p
     C.reset()
+    api.clear_files()
     src = STREAMS[p["stream"]]
-    ref = [_describe(it) for it in _drain(FortranStringReader(src, ignore_comments=p["ic"]))]
-    r = FortranStringReader(src, ignore_comments=p["ic"])
+    d = api.workdir() + "/inc"
+    api.put_file(d + "/one.inc", INC_FREE)
+    api.put_file(d + "/two.inc", INC_FIX)
+    ref = [_describe(it) for it in _drain(FortranStringReader(src, ignore_comments=p["ic"], include_dirs=[d]))]
+    r = FortranStringReader(src, ignore_comments=p["ic"], include_dirs=[d])
     pos = 0            # index in ref of the next item the reader should deliver
     held = []          # items got and not yet put back (most recent last)
     sched = []
@@ -215,3 +224,4 @@ def putback(ctx):
     rest = [_describe(it) for it in _drain(r)]
     ctx.observe("rest", rest)
     ctx.check(rest == ref[pos:], "stream after get/put schedule differs from the reference stream")
+    api.clear_files()
